@@ -534,7 +534,7 @@ fn cold_start(ctx: &Ctx, st: &mut Stats, seed: u64, threads: usize, njobs: usize
         if let Some(d) = spy_log.parent() {
             let _ = std::fs::create_dir_all(d);
         }
-        if !crate::relstage::hostile_environment(&mut cmd, &ctx.root, which, ["1", "C", "yes", "POSIX"][(seed >> 3) as usize % 4], &spy_log) {
+        if !crate::relstage::hostile_environment(&mut cmd, &ctx.root, which, ["1", "C", "yes", "POSIX"][(seed >> 3) as usize % 4], &spy_log, false) {
             st.inconclusive("cold start: harness/shim/envspy.so is missing (run ./setup.sh)".to_string());
         }
     }
